@@ -82,7 +82,7 @@ fn classify_err(msg: &str) -> &'static str {
         "EFatal"
     } else if has("Executed unimplemented opcode") {
         "EUnimpl"
-    } else if has("Divide by zero") {
+    } else if has("Divide by zero") || has("Divide error") {
         "EDivZero"
     } else if has("Cannot advance after execution has already finished") {
         "EFinished"
